@@ -32,7 +32,7 @@ TFEnd == IsEv("follower", "end") /\ FEnd(Line.d = "error") /\ Same
 TLFields == IsEv("leader", "fields") /\ LFields /\ Head(chan).d = Line.d /\ Same
 TLRow == IsEv("leader", "row") /\ LRow /\ Head(chan).d = Line.d /\ Same
 \* the handler's return: it has the closing message and reports the follower's error
-TLEnd == IsEv("leader", "end") /\ LEnd /\ lerr' = (Line.d = "error") /\ Same
+TLEnd == IsEv("leader", "end") /\ (LEnd \/ LFail) /\ lerr' = (Line.d = "error") /\ Same
 
 Normal == TReset \/ TLQuery \/ TFQuery \/ TFFields \/ TFRow \/ TFEnd \/ TLFields \/ TLRow \/ TLEnd
 
